@@ -410,6 +410,9 @@ class Interp(object):
 
     def st_If(self, st, s, ctx):
         t = self.truth(st.test, s.env, ctx)
+        forced = getattr(self, "force", None)
+        if forced and norm_text(st.test) in forced:
+            t = forced[norm_text(st.test)]
         if t is True:
             return self.exec_block(st.body, [s], ctx)
         if t is False:
@@ -1375,7 +1378,7 @@ def _len(I, a, k, e, env, ctx):
     return NotImplemented
 
 
-@ext("builtins.range")
+@ext("builtins.range", "numba.prange")
 def _range(I, a, k, e, env, ctx):
     a = list(a)
     if len(a) == 1:
